@@ -1,4 +1,35 @@
-"""C08 (Verus), the miniscript side of the policy compiler (src/policy/compiler.rs): WORK IN PROGRESS docstring, completed at the end.
+"""C08 (Verus), the miniscript side of the policy compiler (src/policy/compiler.rs): EVERY CANDIDATE THE SEARCH CAN EVER HOLD MEANS THE POLICY NODE
+IT WAS BUILT FOR.  Which candidate wins is decided by f64 costs and is NOT modelled (optimality is out of scope, by design); the invariant
+
+    map_means(map, policy):  for every candidate e of the map and every assignment a:   tsem(e.ms.node, a) == csem(policy, a)
+
+is carried through every function that touches a candidate map, so whichever entry `best_compilation` finally returns keeps the policy's meaning,
+PROVIDED the recursion / memoisation (policy_cache) hands each call the map of the policy it asked for (induction hypothesis, stub `best_compilations`).
+
+ORACLE.  `csem` (truth table of a concrete policy; text of c18_semantic) and `tsem` (the Miniscript specification's semantics column -- spec_and / spec_or /
+spec_andor / spec_wrap / spec_at_least imported from c07_lift -- closed under the tree structure: and_v = and_b = X and Y, or_b = or_c = or_d = or_i = X or Z,
+andor(X,Y,Z) = (X and Y) or Z, wrappers = X, thresh / multi / multi_a = at least k).
+
+UNDER CONTRACT (named clauses)
+  Cast::cast__<row>  x10        cast_keeps_the_meaning (every row of all_casts(): Alt Swap Check DupIf Verify NonZero ZeroNotEqual, l: = or_i(0,X), u: = or_i(X,0),
+                                t: = and_v(X,1)); wrappers additionally builds_the_wrapper_around_the_element.  (R6: one instance per row, machinery of c05_ctors)
+  AstElemExt::terminal          candidate_is_the_given_miniscript;   AstElemExt::{binary, ternary}: candidate_is_the_given_node
+  insert_elem                   map_only_gains_the_element, meaning_invariant_kept (the f64 comparisons only decide WHICH entries survive: stubs)
+  insert_elem_closure           map_only_gains_casts_of_the_element (+ work list invariant), meaning_invariant_kept
+  insert_best_wrapped           every_candidate_means_the_policy (uses the induction hypothesis for the dissat = None maps it casts from)
+  compile_binary / compile_tern every_candidate_means_the_policy GIVEN that whatever `bin_func` / AndOr builds from a left and a right (and a third) candidate means
+                                the policy -- the obligation each call site discharges; sub_compilations_keep_their_miniscripts
+  best_compilations, per arm (the `match *policy` cut into a step; insert_wrap! / compile_binary! / compile_tern! expanded mechanically, guarded by EXPECTED_MACROS):
+     leaves   candidate_{FALSE,TRUE,pk_h,pk_k,after,older,sha256,hash256,ripemd160,hash160}_means_the_policy
+     And      AndB_of_left_and_right, AndB_of_right_and_left, AndV_of_.., andor_of_left_q_zero_right_zero_comp, andor_of_right_q_zero_left_zero_comp  (.._means_the_policy)
+     Or       OrB / OrD / OrC / OrI _of_l_comp_i_and_r_comp_j (10 calls), andor_of_a1_b2_c, andor_of_b1_a2_c (both if-let blocks)
+     Thresh   candidate_multi / candidate_multi_a (shortcut when all children are keys: key_j_of_the_multi_is_the_key_of_child_j), the n-of-n special case
+              (nested_and_so_far_means_all_children_so_far; the map of the nested `and` means the thresh); Threshold::set_maximum keeps k and the elements
+  each candidate clause is a NAMED assertion generated in front of the expanded call from the macro's own arguments, so a wrong fragment or a swapped map names itself.
+
+NOT VERIFIED (declared): T1, the main Thresh candidate (best E / W sub-compilations by f64 cost, `map_ref` closure capturing mutable state, swap of index 0 with the
+cheapest E, from_ast) -- replaced by the ASSUMED stub thresh_main_candidate_assumed; best_t / best / best_compilation (the final pick: `.filter(..).min_by_key(cost)`
+returns an entry of the map); the memoisation; termination of the cast closure (cost order); CompilerExtData (all f64).
 """
 import re
 
@@ -19,7 +50,28 @@ CONC = "src/policy/concrete.rs"
 MSMOD, TYPES, EXT = _tree.MSMOD, _tree.TYPES, _tree.EXT
 MSIMPL = "mod:private/impl:Miniscript<Pk, Ctx>"
 
-DROPPED = []
+DROPPED = [
+    "T1, the main candidate of the Thresh arm (loop over `best(Base::B / W, ..)`, cost difference, `thresh.map_ref(|_| ..)` closure capturing `idx` / `sub_ext_data` mutably, "
+    "swap of index 0 with the cheapest E, Miniscript::from_ast, CompilerExtData::threshold, insert_wrap!): NOT verified; replaced by the ASSUMED stub "
+    "thresh_main_candidate_assumed (keeps `every candidate means the policy`)",
+    "best_compilations: only the `match *policy` is verified, as a per-node step (`let mut ret = BTreeMap::new();` + arms + `Ok(ret)`); the cache lookup in front, the "
+    "`debug_assert_eq!` loop, the `ret.is_empty()` -> LimitsExceeded test and the cache insert behind it are dropped; the RECURSIVE calls go to a stub stating the induction "
+    "hypothesis (an Ok map means the policy asked for).  The induction itself (over the policy tree; the cache is keyed by policy and f64 probabilities) is not mechanised",
+    "best_compilation / best_t / best: the final pick `.into_iter().filter(type / dissat key).map(val).min_by_key(cost)` returns an entry of the map or LimitsExceeded: not verified "
+    "(iterator adapters over f64 keys); the `signed` / `non_malleable` checks of best_compilation are C05/C12 matters",
+    "insert_elem: `map.iter().any(|..| cost comparison)` -> arbitrary bool; `*map = mem::take(map).into_iter().filter(|..| cost comparison).collect()` -> keeps an unchanged SUBSET "
+    "(R14 stubs): optimality / which candidate survives is NOT examined, by design",
+    "insert_elem_closure: termination (rests on the f64 cost order) NOT verified (exec_allows_no_decreases_clause)",
+    "compile_binary / compile_tern: `for x in map.values_mut()` -> loop over the candidates of the map (stub candidates_of: each is an entry of the map); the assignments "
+    "`x.comp_ext_data.branch_prob = Some(w)` -> touch_branch_prob (may change every candidate's cost data, no candidate's `ms`)",
+    "CompilerExtData (all f64), CompilationKey::from_type, AstElemExt::cost_1d, Type / ExtData casts and type_check: opaque / contract-free stubs (annotations: unit c05_ctors)",
+    "Miniscript::{pk_k, pk_h, after, older, sha256, hash256, ripemd160, hash160, multi, multi_a, TRUE, FALSE, from_components_unchecked}: consumed through the clause `node` / `frame` "
+    "proved in unit c05_ctors",
+    "preconditions of the arms (derived from check_binary_ops, which every public entry point runs first): `and` / `or` nodes are binary, also one level below an `or`; the sum "
+    "of two odds does not overflow usize (odds are u32 in the string syntax); Threshold invariant 1 <= k <= n",
+    "P3 (k / n limits of the multi shortcut against the context rules) is only covered as far as Threshold::set_maximum's contract goes (Ok iff n <= NEWMAX, NEWMAX taken from "
+    "the real signatures of Miniscript::multi / multi_a); no context-level clause",
+]
 
 
 def C(tag, text, props=("C08",)):
@@ -480,6 +532,8 @@ proof fn lemma_keys_count<Pk: MiniscriptKey>(p: Concrete<Pk>, keys: Seq<Pk>, n: 
     if n > 0 {
         lemma_keys_count(p, keys, (n - 1) as nat, a);
         assert(*p->Thresh_0.inner@[n - 1] == Concrete::Key(keys[n - 1]));
+        assert(csem(*p->Thresh_0.inner@[n - 1], a) == a.keys.contains(keys[n - 1]));
+        assert(csem_count(p, n, a) == csem_count(p, (n - 1) as nat, a) + (if csem(*p->Thresh_0.inner@[n - 1], a) { 1nat } else { 0nat }));
     }
 }
 proof fn lemma_multi_means<Pk: MiniscriptKey, Ctx: ScriptContext>(p: Concrete<Pk>, th_k: usize, keys: Seq<Pk>)
@@ -538,9 +592,9 @@ def pk_thresh_loop(text):
         return None
     new = ("{\n                    let mr_src = thresh.data();\n                    let mut mr_v: Vec<Pk> = Vec::new();\n                    let mut mr_i: usize = 0;\n"
            "                    while mr_i < mr_src.len()\n                        invariant\n                            mr_i <= mr_src@.len(), mr_src@ == thresh.inner@, mr_v@.len() == mr_i,\n"
-           "                            forall|i: int| 0 <= i < thresh.inner@.len() ==> *(#[trigger] thresh.inner@[i]) is Key,\n"
+           "                            forall|i: int| 0 <= i < thresh.inner@.len() ==> *(#[trigger] thresh.inner@[i]) is Key, //@inv multi_shortcut_only_when_every_child_is_a_key [C08]\n"
            "                            forall|j: int| 0 <= j < mr_i ==> *(#[trigger] mr_src@[j]) == Concrete::Key(mr_v@[j]), //@inv key_j_of_the_multi_is_the_key_of_child_j [C08]\n"
-           "                        decreases mr_src@.len() - mr_i,\n                    {\n                        let s = &mr_src[mr_i];\n                        let mr_x = %s;\n"
+           "                        decreases mr_src@.len() - mr_i,\n                    {\n                        broadcast use axiom_key_clone;\n                        let s = &mr_src[mr_i];\n                        let mr_x = %s;\n"
            "                        mr_v.push(mr_x);\n                        mr_i += 1;\n                    }\n                    threshold_of_mapped(thresh, mr_v)\n                }" % mc.group(1))
     return text[:m.start()] + new + text[close + 1:]
 
@@ -768,7 +822,7 @@ def build(repo):
         BRANCH("l", "left_comp", 0), BRANCH("r", "right_comp", 1),
         lit("R7", "candidates_of(&cb_l_map)", "candidates_of(cb_l_map)"), lit("R7", "candidates_of(&cb_r_map)", "candidates_of(cb_r_map)"),
         sub("R10-after-build", r"(let ast = bin_func\(Arc::clone\(&lref\), Arc::clone\(&rref\)\);)", r"\1" + "\n            proof { assert(t_means(ast, *policy)); }"),
-        sub("R10-after-binary", r"(if let Ok\(new_ext\) = AstElemExt::binary\(ast, l, r\) \{)", r"\1" + "\n                    proof { assert(ms_means(*new_ext.ms, *policy)); }"),
+        sub("R10-after-binary", r"(if let Ok\(new_ext\) = AstElemExt::binary\(ast, l, r\) \{)", r"\1" + "\n                    proof {\n                        assert(ms_means(*new_ext.ms, *policy)); //@inv candidate_is_bin_func_of_a_left_and_a_right_candidate [C08]\n                    }"),
     ] + T8.F64, contract=Contract(
         requires=[MEANS % "old(ret)", REQ_CALL, REQ_MEAN],
         ensures=[
@@ -793,7 +847,7 @@ def build(repo):
         BRANCH("a", "a_comp", 0), BRANCH("b", "b_comp", 0), BRANCH("c", "c_comp", 1),
     ] + [lit("R7", "candidates_of(&ct_%s_map)" % x, "candidates_of(ct_%s_map)" % x) for x in "abc"] + [
         sub("R10-after-build", r"(let ast = Terminal::AndOr\(Arc::clone\(&aref\), Arc::clone\(&bref\), Arc::clone\(&cref\)\);)", r"\1" + "\n                proof { assert(is_cand_of(old(c_comp)@, c.ms)); assert(t_means(andor_node(aref, bref, cref), *policy)); }", required=False),
-        sub("R10-after-ternary", r"(if let Ok\(new_ext\) = AstElemExt::ternary\(ast, a, b, c\) \{)", r"\1" + "\n                    proof { assert(ms_means(*new_ext.ms, *policy)); }"),
+        sub("R10-after-ternary", r"(if let Ok\(new_ext\) = AstElemExt::ternary\(ast, a, b, c\) \{)", r"\1" + "\n                    proof {\n                        assert(ms_means(*new_ext.ms, *policy)); //@inv candidate_is_andor_of_a_b_c_in_this_order [C08]\n                    }"),
     ] + T8.F64, contract=Contract(
         requires=[MEANS % "old(ret)", REQ_T],
         ensures=[
@@ -885,16 +939,14 @@ def build(repo):
             arm_rewrites={"Concrete::Thresh(ref thresh)": [
                 thresh_main_excluded,
                 sub("R15-count-keys", r"thresh\s*\.iter\(\)\s*\.filter\(\|s\| matches!\(\*\*\*s, Concrete::Key\(_\)\)\)\s*\.count\(\)", "count_key_children(thresh)"),
-                pk_thresh_loop,
-                and_fold_loop,
-                sub("R7-into-arc", r"Concrete::And\(vec!\[acc, pol\.clone\(\)\]\)\.into\(\)", "Arc::new(Concrete::And(vec![acc, pol.clone()]))"),
+                sub("R7-into-arc", r"(Concrete::\w+\(vec!\[[^\]]*\]\))\.into\(\)", r"Arc::new(\1)"),
                 sub("R10-multi-hint", r"(if let Ok\(pk_thresh\) = pk_thresh\.set_maximum\(\) \{)",
                     r"\1" + "\n                            proof { lemma_multi_means::<Pk, Ctx>(th_pol, pk_thresh.k, pk_thresh.inner@); }"),
                 sub("R10-n-of-n-hint", r"(ret = best_compilations\(policy_cache, policy\.as_ref\(\), sat_prob, dissat_prob\)\?;)",
                     r"\1" + "\n                proof { lemma_n_of_n(th_pol); let fd_p = &*policy; lemma_means_transfer(ret@, *fd_p, th_pol); }"),
                 sub("R10-arm-start", r"^\{", "{\n            let ghost th_pol = *policy;", count=1),
             ]},
-            rewrites=[MacroExpander(), sub("R7-arc-as-ref", r"&?(\b[\w.\[\]]+)\.as_ref\(\)", r"&*\1"), T8.sub_as_f64_ext()] + T8.F64 + R7,
+            rewrites=[MacroExpander(), pk_thresh_loop, and_fold_loop, sub("R7-arc-as-ref", r"&?(\b[\w.\[\]]+)\.as_ref\(\)", r"&*\1"), T8.sub_as_f64_ext()] + T8.F64 + R7,
             pre_match="    broadcast use cand_glue;\n    broadcast use clone_is_identity;\n    let mut ret = BTreeMap::new();",
             post_match="    let step_result = Ok(ret);",
             contract=Contract(requires=["*policy is Thresh",
